@@ -196,9 +196,12 @@ num-traits = { version = "0.2", default-features = false, features = ["libm"] }
     if not os.path.exists(p) or open(p).read() != toml:
         open(p, "w").write(toml)
     lock = os.path.join(CACHE, "Cargo.lock")
-    if not os.path.exists(lock):
+    src = os.path.join(REPO, "Cargo.lock")
+    if not os.path.exists(lock) and os.path.exists(src):
+        # pin the versions the repository builds with (Cargo.lock is untracked in /repo, so it may be absent in a git worktree;
+        # cargo then resolves offline from the registry cache)
         import shutil
-        shutil.copy(os.path.join(REPO, "Cargo.lock"), lock)
+        shutil.copy(src, lock)
 
 
 def _parse_block(text):
